@@ -150,6 +150,49 @@ theorem global_region_construction :
     (List.mem_map.mpr ⟨(0, 1799), mem_productN.mpr ⟨by norm_num, by norm_num⟩, rfl⟩)
   exact h
 
+/-! ## regions whose spacing is not a short decimal, after fix D49 of `cleaner_range`'s fallback branch -/
+
+/-- the witness of D49: a 4 × 3 lattice anchored at (0.3, 0.3) with spacing 1/35, origins computed as `0.3 + i*dh` in binary64 -/
+def h35 : ℚ := fl64 (1 / 35)
+def o35 : List (ℚ × ℚ) :=
+  (List.range 4).flatMap fun i => (List.range 3).map fun j =>
+    (fadd (fl64 (3 / 10)) (fmul ((i : ℕ) : ℚ) h35), fadd (fl64 (3 / 10)) (fmul ((j : ℕ) : ℚ) h35))
+
+/-- FINDING D49 (code before the fix, `fromOriginsOld`): the region's first edges are 0.2857142857142857 instead of 0.3 (the start was
+rounded to a multiple of the step): every cell midpoint is hashed ONE column and one row too high — polygon 0 to (1, 1) instead of (0, 0) —\nand the cells of the last column / row fall off the grid (−1: they stay masked, the region reports its own cells outside) -/
+theorem finding_cleaner_fallback_displaced_region :
+    (fromOriginsOld o35 h35 none (decsOf o35 h35)).xs.head? = some (fl64 (2857142857142857 / 10000000000000000)) ∧
+    (fromOriginsOld o35 h35 none (decsOf o35 h35)).ys.head? = some (fl64 (2857142857142857 / 10000000000000000)) ∧
+    (fromOriginsOld o35 h35 none (decsOf o35 h35)).hash =
+      [(1, 1), (1, 2), (1, -1), (2, 1), (2, 2), (2, -1), (3, 1), (3, 2), (3, -1), (-1, 1), (-1, 2), (-1, -1)] := by
+  decide +kernel
+
+/-- … the repaired code: the edge arrays ARE the origin coordinates `0.3 + k/35` (same two float operations), 4 × 3, and every
+polygon is recorded at its own lattice position, unmasked -/
+theorem repaired_noisy_region :
+    (fromOriginsAuto o35 h35 none).xs = (List.range 4).map (fun i => fadd (fl64 (3 / 10)) (fmul ((i : ℕ) : ℚ) h35)) ∧
+    (fromOriginsAuto o35 h35 none).ys = (List.range 3).map (fun j => fadd (fl64 (3 / 10)) (fmul ((j : ℕ) : ℚ) h35)) ∧
+    (fromOriginsAuto o35 h35 none).cells =
+      (List.range 4).flatMap fun i => (List.range 3).map fun j => (⟨i, j, true⟩ : Cell) := by decide +kernel
+
+/-- in general: when the main path of `cleaner_range` does not apply to an axis, the region's edge array on that axis starts at the
+smallest origin coordinate ITSELF (after D49 the grid is never moved off its anchor) -/
+theorem noisy_axis_starts_at_anchor (os : List (ℚ × ℚ)) (dh : ℚ) (flags : Option (List Bool))
+    (hF : fl64 (minL (os.map (·.1))) = minL (os.map (·.1)))
+    (hg : Bin1d.cleanerRangeF (minL (os.map (·.1))) (maxL (os.map (·.1))) dh
+      (max (numDecimals (minL (os.map (·.1)))) (numDecimals dh)) = none)
+    (hne : 0 < (fromOriginsAuto os dh flags).xs.length) :
+    (fromOriginsAuto os dh flags).xs[0]? = some (minL (os.map (·.1))) := by
+  have hx : (fromOriginsAuto os dh flags).xs
+      = fallbackRange (minL (os.map (·.1))) (maxL (os.map (·.1))) dh := by
+    unfold fromOriginsAuto
+    rw [fromOrigins_xs]
+    unfold decsOf cleanerRangeAll
+    simp only
+    rw [hg]
+  rw [hx] at hne ⊢
+  exact Bin1d.fallback_first_edge _ _ _ hF hne
+
 /-! ### non-vacuity -/
 
 -- the 3 × 2 lattice of Properties/C01.lean (anchor (0.3, −0.2), dh = 0.1, a hole): the model computes the decimals (1, 1, 1) itself …
